@@ -45,7 +45,8 @@ func c16Payloads() []payload {
 		{"load_file", "call", []string{"LOAD_FILE('/etc/passwd')", "load_file('/etc/passwd')", "Load_File ( '/etc/passwd' )"}, security.PatternOutOfBand, security.SeverityCritical},
 		{"xp_cmdshell", "call", []string{"XP_CMDSHELL('dir')", "xp_cmdshell('dir')"}, security.PatternOutOfBand, security.SeverityCritical},
 		{"union-null", "union", []string{"UNION SELECT NULL, NULL", "union select null, null", "UNION ALL SELECT NULL, NULL, NULL", "UNION\nSELECT\tNULL ,NULL"}, security.PatternUnionBased, ""},
-		{"union-infoschema", "union", []string{"UNION SELECT table_name FROM information_schema.tables", "union select table_name from information_schema.tables", "UNION  ALL\nSELECT table_name FROM INFORMATION_SCHEMA.TABLES", "UNION SELECT table_name\nFROM information_schema.tables", "UNION SELECT table_name\tFROM\tinformation_schema.tables"}, security.PatternUnionBased, security.SeverityCritical},
+		{"union-infoschema", "union", []string{"UNION SELECT table_name FROM information_schema.tables", "union select table_name from information_schema.tables", "UNION  ALL\nSELECT table_name FROM INFORMATION_SCHEMA.TABLES", "UNION SELECT table_name\nFROM information_schema.tables", "UNION SELECT table_name\tFROM\tinformation_schema.tables", "UNION SELECT i.table_name FROM u JOIN information_schema.tables i ON 1 = 2", "UNION SELECT i.table_name FROM u LEFT JOIN v ON u.a = v.a JOIN information_schema.columns i ON i.table_name = u.b"}, security.PatternUnionBased, security.SeverityCritical},
+		{"union-null-named", "union", []string{"UNION SELECT NULL AS x, NULL AS y", "union select null as x, null as y", "UNION ALL SELECT NULL x, NULL y, NULL z", "UNION SELECT CAST(NULL AS INT), CAST(NULL AS TEXT)", "UNION SELECT NULL::int, NULL::text AS t"}, security.PatternUnionBased, ""},
 		{"union-null-infoschema", "union", []string{"UNION SELECT NULL, NULL FROM information_schema.tables", "union select null, null from information_schema.tables", "UNION ALL SELECT NULL, NULL, NULL FROM information_schema.columns", "UNION SELECT NULL, table_name, NULL FROM information_schema.tables"}, security.PatternUnionBased, security.SeverityCritical},
 		{"union-null-pgcatalog", "union", []string{"UNION SELECT NULL, NULL FROM pg_catalog.pg_tables", "union all select null, null, null from pg_catalog.pg_tables"}, security.PatternUnionBased, security.SeverityCritical},
 		{"union-pgcatalog", "union", []string{"UNION SELECT name FROM pg_catalog.pg_tables", "union select name from pg_catalog.pg_tables", "UNION ALL SELECT name FROM PG_CATALOG.pg_tables"}, security.PatternUnionBased, security.SeverityCritical},
@@ -89,6 +90,9 @@ func c16Positions() []position {
 		{"cte-delete-body", "cond", "WITH d AS (DELETE FROM u WHERE %s RETURNING b) SELECT b FROM d", false},
 		{"between-dollar-pair-strings", "cond", "SELECT a FROM t WHERE b = '$$' AND %s AND c = '$$'", false},
 		{"after-tagged-dollar-in-string", "cond", "SELECT a FROM t WHERE b = '$x$' AND (%s) AND c = \"$x$\"", false},
+		{"between-dollar-pair-line-comments", "cond", "SELECT a FROM t WHERE b = 2 -- $$\n AND %s -- $$\n", false},
+		{"between-dollar-pair-block-comments", "cond", "SELECT a FROM t WHERE b = 2 /* $$ */ AND %s /* $$ */", false},
+		{"after-tagged-dollar-in-comment", "cond", "SELECT a /* $x$ */ FROM t WHERE (%s) AND c = 3 -- $x$", false},
 		{"setop-right", "cond", "SELECT a FROM t UNION SELECT b FROM u WHERE %s", false},
 		{"setop-left", "cond", "SELECT a FROM t WHERE %s UNION SELECT b FROM u", false},
 		{"update-subquery", "cond", "UPDATE t SET a = 1 WHERE b IN (SELECT c FROM u WHERE %s)", false},
@@ -130,6 +134,7 @@ func c16Positions() []position {
 		{"arith", "call", "SELECT a FROM t WHERE a = 1 + %s", false},
 		{"case-result", "call", "SELECT CASE WHEN a = 1 THEN %s ELSE 0 END FROM t", false},
 		{"call-between-dollar-pair-strings", "call", "SELECT a FROM t WHERE b = '$$' AND a = %s AND c = '$$'", false},
+		{"call-between-dollar-pair-comments", "call", "SELECT a -- $$\n FROM t WHERE a = %s /* $$ */", false},
 		{"case-first-result-of-three", "call", "SELECT CASE WHEN a = 1 THEN %s WHEN a = 2 THEN 2 WHEN a = 3 THEN 3 END FROM t", false},
 		{"concat-chain-head-of-200", "call", "SELECT %s" + strings.Repeat(" || 'x'", 200) + " FROM t", false},
 		{"plus-chain-head-of-600", "call", "SELECT a FROM t WHERE a = %s" + strings.Repeat(" + 1", 600), false},
